@@ -683,7 +683,7 @@ def r8_require(ctx):
 
 
 def run(ctx):
-    ctx.guard("C03.R5", "scopes", lambda: r5_scopes(ctx))
+    ctx.borrow("C03.R5", "a scope pushed by with_inner_state is popped on every exit (K6; replaces the path rule over the CFG)", "c01", "r7_inner_state", "C01.R7")
     ctx.guard("C03.R6", "builder", lambda: r6_builder(ctx))
     ctx.guard("C03.R7", "dropped results", lambda: r7_no_dropped_result(ctx))
     ctx.guard("C03.R8", "StateReq::require", lambda: r8_require(ctx))
